@@ -105,6 +105,8 @@ pub enum Op {
     Pop,
     PopRoot,
     WithInner(u8, u8),
+    /// with_inner_state whose body inserts T(v) and then fails; the third field: 0 = directly on the state, 1 = inside another (still empty) inner state whose body continues after the failure
+    WithInnerFail(u8, u8, u8),
     RequireT(u8),
     ParentMutWrite(u8, u8),
     /// insert into the scope directly below the top through parent_mut() (also a type no outer scope held)
@@ -129,7 +131,7 @@ impl Op {
             | EntryOrInsertWith(t, _) | EntryOrDefault(t) | EntryAndModify(t) | EntryAndModifyValue(t)
             | EntryAndModifyOrInsert(t, _) | EntryOccGet(t) | EntryOccGetMutWrite(t, _)
             | EntryOccIntoMutWrite(t, _) | EntryOccInsert(t, _) | EntryOccRemove(t) | EntryVacInsert(t, _)
-            | WithInner(t, _) | RequireT(t) | Multi(t, _, _) | ParentMutWrite(t, _) | ParentMutInsert(t, _) | MultiPanicking(t, _, _)
+            | WithInner(t, _) | WithInnerFail(t, _, _) | RequireT(t) | Multi(t, _, _) | ParentMutWrite(t, _) | ParentMutInsert(t, _) | MultiPanicking(t, _, _)
             | EntryOrInsertWrite(t, _, _) | FindMutInsert(t, _) => Some(*t),
             _ => None,
         }
@@ -312,6 +314,8 @@ impl Model {
                 R::Map((0..3).map(|t| m.get(&t).cloned()).collect())
             }
             PopRoot => R::Map((0..3).map(|t| self.scopes[0].get(&t).cloned()).collect()),
+            // the failed scope is closed again and leaves nothing behind
+            WithInnerFail(..) => R::Map(vec![None, None, None]),
             WithInner(t, v) => {
                 // body: insert T(v) into the child, bump T in place if visible before
                 R::Map((0..3).map(|x| if x == t { Some(v) } else { None }).collect())
@@ -561,6 +565,37 @@ fn apply_t<T: Cell>(st: &mut St, op: &Op) -> R {
             Entry::Occupied(e) => R::Occ(Some(**e.get())),
             Entry::Vacant(e) => R::Vac(Some(**e.insert(T::from(v)))),
         },
+        WithInnerFail(_, v, nested) => {
+            if nested == 0 {
+                let before_top = st.contains_at_top::<T>();
+                let r = st.with_inner_state(|inner| {
+                    inner.insert(T::from(v));
+                    Err(eyre::eyre!("body failed"))
+                });
+                match r {
+                    Err(_) if st.contains_at_top::<T>() == before_top => R::Map(vec![None, None, None]),
+                    Err(_) => R::Other("the failed body's insert is visible at the top of the caller's state".into()),
+                    Ok(_) => R::Other("with_inner_state returned Ok although its body failed".into()),
+                }
+            } else {
+                let mut seen = None;
+                let r = st.with_inner_state(|mid| {
+                    let r2 = mid.with_inner_state(|inner| {
+                        inner.insert(T::from(v));
+                        Err(eyre::eyre!("body failed"))
+                    });
+                    seen = Some((r2.is_err(), mid.contains_at_top::<T>()));
+                    Ok(())
+                });
+                match (r, seen) {
+                    (Ok(child), Some((true, false))) => R::Map(dump_level(&child, 3)),
+                    (Ok(_), Some((false, _))) => R::Other("the inner with_inner_state returned Ok although its body failed".into()),
+                    (Ok(_), Some((true, true))) => R::Other("after the failed inner scope its insert is present in the enclosing scope".into()),
+                    (Ok(_), None) => R::Other("body not run".into()),
+                    (Err(e), _) => R::Other(format!("outer with_inner_state failed: {}", e)),
+                }
+            }
+        }
         WithInner(_, v) => {
             let r = st.with_inner_state(|inner| {
                 inner.insert(T::from(v));
@@ -743,6 +778,10 @@ pub fn all_ops(ntypes: u8, depth: usize, core_only: bool) -> Vec<Op> {
         v.push(EntryOccInsert(t, 2));
         v.push(EntryVacInsert(t, 1));
         v.push(WithInner(t, 1));
+        if !core_only {
+            v.push(WithInnerFail(t, 2, 0));
+            v.push(WithInnerFail(t, 2, 1));
+        }
         v.push(RequireT(t));
         v.push(ParentMutWrite(t, 2));
         v.push(ParentMutInsert(t, 1));
@@ -975,7 +1014,7 @@ fn check_many_types(shadow: bool) -> Vec<(String, String)> {
 }
 
 pub fn run(rep: &mut Report) {
-    rep.alpha("per type T in {A,B,C} (Deref<Target=u8>, values mod 3): insert, remove, take, contains, contains_at_top, find, find_mut, try_borrow/borrow, try_borrow_mut/borrow_mut + write, try_get_value/get_value, try_borrow_value(_mut)/borrow_value(_mut) + write, set_value, get_mut + write, entry().or_insert/or_insert_with/or_default/and_modify/and_modify_value, Entry::Occupied get/get_mut/into_mut/insert/remove, Entry::Vacant insert, try_get_multiple_mut::<(T,U)>, requirements().require, with_inner_state(Ok body)");
+    rep.alpha("per type T in {A,B,C} (Deref<Target=u8>, values mod 3): insert, remove, take, contains, contains_at_top, find, find_mut, try_borrow/borrow, try_borrow_mut/borrow_mut + write, try_get_value/get_value, try_borrow_value(_mut)/borrow_value(_mut) + write, set_value, get_mut + write, entry().or_insert/or_insert_with/or_default/and_modify/and_modify_value, Entry::Occupied get/get_mut/into_mut/insert/remove, Entry::Vacant insert, try_get_multiple_mut::<(T,U)>, requirements().require, with_inner_state(Ok body), with_inner_state(body inserts, then fails) directly and inside another inner state");
     rep.alpha("scope stacks of 1..300 (thorough: 1025) scopes with a type held in one scope only, every lookup flavour from the top");
     rep.alpha("72 distinct state types in one scope (flat, and each shadowing an outer instance): try_get_multiple_mut over every ordered pair");
     rep.alpha("parent, parent_mut (write, insert), into_child (push scope), into_parent (pop scope, both halves inspected)");
@@ -1099,6 +1138,7 @@ fn parse_op(v: &Value) -> Result<Op, String> {
         "Pop" => Pop,
         "PopRoot" => PopRoot,
         "WithInner" => WithInner(a(0), a(1)),
+        "WithInnerFail" => WithInnerFail(a(0), a(1), a(2)),
         "RequireT" => RequireT(a(0)),
         "ParentMutWrite" => ParentMutWrite(a(0), a(1)),
         "ParentMutInsert" => ParentMutInsert(a(0), a(1)),
